@@ -46,7 +46,7 @@ func init() {
 		PropCheck: "prop_bad_ids",
 		Gen:       c03Gen,
 		Run:       c03Run,
-		Rule:      "hook mode (bls_batch_verify with chosen coefficients): every subset of invalid positions for n up to the tier bound with all coefficients 1, swapped pairs, s_i+d / s_j-d and three-way cancellations inside one subtree and across subtrees, identity keys and signatures, malformed and non-G1 signatures at every position, random seeds, n up to 33; api mode (BatchVerifyBLSSignaturesOneMessage, internal randomness): the same families plus wrong-length signatures, compared index by index with individual verification; batches of 257 (300) entries with swapped / cancelling pairs at distance 256, 255, 1; added by the generator audit, in both modes where expressible: a batch of one entry of every kind; every kind of invalid entry (wrong well-formed signature, identity key from every constructor, identity signature, identity signature under an identity key, compression flag cleared, s+T, the order-3 point, s + order-3 point, infinity with a stray byte, x = p, x off the curve, lengths nil / 0 / 47 / 49 / 96) at the first, a middle and the last position; random mixtures of all kinds in one batch; batches without a valid entry; key objects from every constructor (decoded, aggregated, removed); the same (key, signature) pair at several indices, a key and its negative, one signature under two keys; hook seeds all 0xff / equal at every index / differing in the last byte; empty tag, nil and long message, fixed-output hashers (all zero, equal halves); the runner checks the typed errors (empty and nil lists, both length mismatches, nil hasher, hashers of size 0/127/129/256, non-BLS key at every index, nil key) alone and together with a short signature or an identity key: documented error, one result per signature, all false; the first result slice is unchanged after later calls, a second call returns the same, keys and signatures are unmodified, no panic; distinct by input; non-trivial when at least one leaf is invalid or n >= 2",
+		Rule:      "hook mode (bls_batch_verify with chosen coefficients): every subset of invalid positions for n up to the tier bound with all coefficients 1, swapped pairs, s_i+d / s_j-d and three-way cancellations inside one subtree and across subtrees, identity keys and signatures, malformed and non-G1 signatures at every position, random seeds, n up to 33; api mode (BatchVerifyBLSSignaturesOneMessage, internal randomness): the same families plus wrong-length signatures, compared index by index with individual verification; batches of 257 (300) entries with swapped / cancelling pairs at distance 256, 255, 1; added by the generator audit, in both modes where expressible: a batch of one entry of every kind; every kind of invalid entry (wrong well-formed signature, identity key from every constructor, identity signature, identity signature under an identity key, compression flag cleared, s+T, the order-3 point, s + order-3 point, infinity with a stray byte, x = p, x off the curve, lengths nil / 0 / 47 / 49 / 96) at the first, a middle and the last position; random mixtures of all kinds in one batch; batches without a valid entry; key objects from every constructor (decoded, aggregated, removed); the same (key, signature) pair at several indices, a key and its negative, one signature under two keys; hook seeds all 0xff / equal at every index / differing in the last byte; empty tag, nil and long message, fixed-output hashers (all zero, equal halves); the runner checks the typed errors (empty and nil lists, both length mismatches, nil hasher, hashers of size 0/127/129/256, non-BLS key at every index, nil key) alone and together with a short signature or an identity key: documented error, one result per signature, all false; the first result slice is unchanged after later calls, a second call returns the same, keys and signatures are unmodified, no panic; distinct by input; non-trivial when at least one leaf is invalid or n >= 2; offsets w_i*D whose moments vanish (sum w = 0, sum i w = 0, sum i^2 w = 0) at several shifts",
 		Shard:     40,
 	})
 }
